@@ -723,28 +723,38 @@ def dst_case(rnd):
 
 
 def evaluate_dst(case, oracle):
-    """-> None (agree) | 'inconclusive' | (description, expected, got).  See the comment above."""
+    """-> None (agree) | 'skip' | 'inconclusive' | 'stall' | (description, expected, got).
+    'skip': the naive twin finds no end before the cap within the fuel (a sparse or never-matching rule: both the
+    model and the real generator would scan towards year 9999; the main stream covers that class by relocation) --
+    such draws are replaced by fresh ones and counted (dst_skipped).  A twin that the constructor model rejects
+    (ValueError) is compared too: the real constructor must raise ValueError."""
     import signal
     from dateutil import rrule as R
     from dateutil import tz
     twin = dict(case)
     uy = case["until_utc"]
-    # the twin gets a naive UNTIL two days after the UTC UNTIL (offsets are below one day), only to bound the
-    # model's scan; everything beyond the real UNTIL is cut below by the aware comparison
-    cap = datetime.datetime(uy[0], uy[1], uy[2], uy[3], uy[4], uy[5]) + datetime.timedelta(days=2)
+    zone = tz.tzstr(case["zone"])
+    until = datetime.datetime(uy[0], uy[1], uy[2], uy[3], uy[4], uy[5], uy[6], tzinfo=tz.tzutc())
+    # the twin gets a naive UNTIL = the UTC UNTIL on the zone's wall clock + 1 h + 1 s, only to bound the model's
+    # scan: a wall time w lies beyond the UNTIL iff w - off(w) > until, off(w) <= off(until) + 1 h for every zone of
+    # DST_ZONES, so every w beyond the cap is beyond the UNTIL.  Everything between the real UNTIL and the cap is
+    # cut below by the aware comparison.
+    cap = until.astimezone(zone).replace(tzinfo=None, microsecond=0) + datetime.timedelta(seconds=3601)
     twin["until"] = {"kind": "naive", "y": cap.year, "m": cap.month, "d": cap.day, "H": cap.hour, "M": cap.minute,
                      "S": cap.second, "us": 0}
     a = encode(twin)
     f = case["freq"]
     N = case["N"]
-    mr = oracle.call(ENTRY_MODEL, a + [N, FUEL_RUN[f]])
+    extra = 3700 // (max(case.get("interval") or 1, 1) * PERIOD_SECS[f]) + 2      # passes between UNTIL and cap
+    mr = oracle.call(ENTRY_MODEL, a + [N, FUEL_RUN[f] + extra])
     if mr == "TIMEOUT":
-        return "inconclusive"
+        return "skip"
     model = decode_result(mr)
-    if model["status"] not in ("L", "X"):
-        return "inconclusive"          # out of fuel / raises: the twin is not a usable reference
-    zone = tz.tzstr(case["zone"])
-    until = datetime.datetime(uy[0], uy[1], uy[2], uy[3], uy[4], uy[5], uy[6], tzinfo=tz.tzutc())
+    ctor_error = model["status"] == "R" and model["phase"] == 0 and model["exn"] == 1
+    if model["status"] == "F":
+        return "skip"
+    if model["status"] not in ("L", "X") and not ctor_error:
+        return "inconclusive"          # the twin raises while iterating: not a usable reference
     expected, cut = [], False
     for code in model["items"]:
         o, sod = divmod(code, 86400)
@@ -765,7 +775,14 @@ def evaluate_dst(case, oracle):
         with warnings.catch_warnings():
             warnings.simplefilter("ignore")
             try:
-                rule = R.rrule(freq, **kw)
+                try:
+                    rule = R.rrule(freq, **kw)
+                except ValueError:
+                    if ctor_error:
+                        return None
+                    raise
+                if ctor_error:
+                    return ("the constructor accepts a rule whose naive twin is rejected with ValueError", [], [])
                 got, status = [], "L"
                 it = iter(rule)
                 try:
